@@ -131,6 +131,48 @@ func init() {
 					Fields: []string{hx(src), hx(text)}, Meta: map[string]string{}})
 			}
 		}
+		// names that are defined more than once: a global pattern redefined after another definition used it, an inline
+		// subroutine (inside a stored pattern, or in the command) that shares its name with a global pattern, a name
+		// referenced before and after the definition that shadows it.  Spelling v0 writes every body out.
+		ns := sizes(tier, 240, 5000)
+		for i := 0; i < ns; i++ {
+			g := &srcGen{r: r, cfg: bodyCfg, features: map[string]int{}}
+			A, B, Z := "("+g.body(1, 1)+")", "("+g.body(1, 1)+")", "("+g.body(1, 1)+")"
+			sep := quote(g.litString())
+			var named, written string
+			switch i % 8 {
+			case 0: // redefinition after use, reference order p q
+				named = "set q to pattern " + A + "\nset p to pattern q " + sep + "\nset q to pattern " + B + "\nfind all p q"
+				written = "find all " + A + " " + sep + " " + B
+			case 1: // q p
+				named = "set q to pattern " + A + "\nset p to pattern q " + sep + "\nset q to pattern " + B + "\nfind all q p"
+				written = "find all " + B + " " + A + " " + sep
+			case 2: // p q p
+				named = "set q to pattern " + A + "\nset p to pattern q " + sep + "\nset q to pattern " + B + "\nfind all p q p"
+				written = "find all " + A + " " + sep + " " + B + " " + A + " " + sep
+			case 3: // inline subroutine inside a stored pattern shares its name with a global
+				named = "set h to pattern " + Z + "\nset p to pattern {" + A + "} = h h\nfind all p h"
+				written = "find all " + A + " " + A + " " + Z
+			case 4: // the same, the global referenced first
+				named = "set h to pattern " + Z + "\nset p to pattern {" + A + "} = h " + sep + "\nfind all h p h"
+				written = "find all " + Z + " " + A + " " + sep + " " + Z
+			case 5: // two levels of nesting, the innermost name redefined between the levels
+				named = "set q to pattern " + A + "\nset p to pattern q " + sep + "\nset q to pattern " + B + "\nset r to pattern p q\nset q to pattern " + Z + "\nfind all r q"
+				written = "find all " + A + " " + sep + " " + B + " " + Z
+			case 6: // redefinition between two commands: each command sees the definition current at its place
+				named = "set q to pattern " + A + "\nset p to pattern q q\nfind all at least 1 (p) q"
+				written = "find all at least 1 (" + A + " " + A + ") " + A
+			default: // inside loops and alternations
+				named = "set q to pattern " + A + "\nset p to pattern maybe q " + sep + "\nset q to pattern " + B + "\nfind all (p or q) at least 0 q"
+				written = "find all ((maybe " + A + " " + sep + ") or " + B + ") at least 0 " + B
+			}
+			st.Features[fmt.Sprintf("shadow-%d", i%8)]++
+			text := GenText(r, g.lits, 16)
+			for vi, src := range []string{written, named} {
+				cases = append(cases, Case{ID: fmt.Sprintf("es%d.v%d", i, vi), Op: "run",
+					Fields: []string{hx(src), hx(text)}, Meta: map[string]string{}})
+			}
+		}
 		// commands sharing definitions: concatenation, repetition, recompilation
 		m := sizes(tier, 400, 8000)
 		cfg := GenCfg{MaxDepth: 2, Captures: true, Anchors: true, Subs: true}
